@@ -41,7 +41,7 @@ type BinaryIndex struct {
 	Package        string
 	Source         string
 	Version        version.Version
-	InstalledSize  int     `control:"Installed-Size"`
+	InstalledSize  int `control:"Installed-Size"`
 	Maintainer     string
 	Architecture   dependency.Arch
 	MultiArch      string `control:"Multi-Arch"`
@@ -117,7 +117,7 @@ func (index *BinaryIndex) SourcePackage() string {
 // process but most not be used directly. Use the Checksums() accessor instead.
 type BestChecksums struct {
 	ChecksumsSha256 []SHA256FileHash `control:"Checksums-Sha256" delim:"\n" strip:"\n\r\t "`
-	ChecksumsSha512 []SHA256FileHash `control:"Checksums-Sha512" delim:"\n" strip:"\n\r\t "`
+	ChecksumsSha512 []SHA512FileHash `control:"Checksums-Sha512" delim:"\n" strip:"\n\r\t "`
 }
 
 // Checksums returns FileHashes of a cryptographically secure kind.
@@ -152,7 +152,7 @@ type SourceIndex struct {
 	Paragraph
 
 	Package  string
-	Binaries []string `control:"Binary" delim:"," strip:" "`
+	Binaries []string `control:"Binary" delim:"," strip:"\n\r\t "`
 
 	Version    version.Version
 	Maintainer string
@@ -160,7 +160,7 @@ type SourceIndex struct {
 
 	Architecture []dependency.Arch
 
-	StandardsVersion string
+	StandardsVersion string `control:"Standards-Version"`
 	Format           string
 	Files            []MD5FileHash    `delim:"\n" strip:"\n\r\t "`
 	VcsBrowser       string           `control:"Vcs-Browser"`
